@@ -35,6 +35,15 @@ def r19a(ctx, rep):
              "recursive call in an already recursive function is still reported.")
     n_edges = 0
     n_scc = 0
+    # a listed finding `R19a|a -> b|n` covers up to n sites of that edge: removing a recursive call site is
+    # not a new finding, adding one is
+    from ..core import load_known
+    listed = {}
+    for k in load_known().get("findings", []):
+        if k.get("property") == "C19" and k["key"].startswith("R19a|"):
+            edge, _, cnt = k["key"].rpartition("|")
+            if cnt.isdigit():
+                listed[edge] = max(listed.get(edge, 0), int(cnt))
     for comp in cg.sccs():
         cs = set(comp)
         if len(comp) == 1 and comp[0] not in cg.out.get(comp[0], ()):
@@ -51,7 +60,8 @@ def r19a(ctx, rep):
                 sites = cg.sites[(a, b)]
                 n = len(sites)
                 n_edges += 1
-                key = "R19a|%s -> %s|%d" % (short_path(a), short_path(b), n)
+                edge = "R19a|%s -> %s" % (short_path(a), short_path(b))
+                key = "%s|%d" % (edge, listed[edge] if n <= listed.get(edge, 0) else n)
                 locs = [t["loc"] for bb, t, k in sites if isinstance(t, dict) and "loc" in t]
                 if why:
                     rep.ok("R19a", key, "recursion %s -> %s is bounded: %s" % (short_path(a), short_path(b), why), locs)
